@@ -103,19 +103,38 @@ structure UpdRes (S : Type) where
   cb : List Act
   blocked : Bool
 
+/-- `watcher.state`: what the cancel function sees -/
+inductive WState
+  | idle        -- registered, none of its callbacks is running
+  | busy        -- the loop is running one of its callbacks, or has dropped it
+  | cancelled   -- busy, and cancel has been called meanwhile
+  deriving DecidableEq, Repr
+
+/-- the cancel function: `if CAS(state, busy, cancelled) || state == cancelled { return }; e.removeWatcher <- id`.
+`true` = it goes on to the send.  Called from a callback (on the loop's goroutine) that send never completes. -/
+def cancelSends : WState → Bool
+  | .idle => true
+  | .busy => false
+  | .cancelled => false
+
 /-- `func (w *watcher) update(ctx, global) bool`:
 `state = busy; if !w.send(..) { return false }; if !CAS(state, busy, idle) { w.onclose(nil); return false }; return true`
-where `send` evaluates, calls `onupdate`, and on failure calls `onclose(err)` and returns false.  The
-cancel function, finding the watcher busy, only marks it (`CAS(state, busy, cancelled)`) and returns. -/
+where `send` evaluates, calls `onupdate`, and on failure calls `onclose(err)` and returns false.
+
+Every `onclose` is taken to call the observation's own cancel function (any number of times — the worst
+case of the callback oracle); `blocked` records whether such a call goes on to the send, given the state
+the watcher has at that call site: busy in `send`, cancelled after the failed CAS. -/
 def wUpdate {S : Type} (w : Watcher S) (g : S) : UpdRes S :=
   match w.expr g with
-  | none => ⟨[.closed true], false, w.cb, false⟩             -- send: w.onclose(err); return false
+  | none => ⟨[.closed true], false, w.cb, cancelSends .busy⟩          -- send: w.onclose(err); return false
   | some v =>
     match w.cb.headD .ok with                                 -- send: err = w.onupdate(value)
     | .ok => ⟨[.val v], true, w.cb.tail, false⟩              -- CAS(busy, idle) succeeds
-    | .err => ⟨[.val v, .closed true], false, w.cb.tail, false⟩     -- send: w.onclose(err); return false
-    | .panic => ⟨[.val v, .closed true], false, w.cb.tail, false⟩   -- send: recover: ok = false; w.onclose(wrapped)
-    | .reenter => ⟨[.val v, .closed false], false, w.cb.tail, false⟩ -- cancel marked it: CAS fails; w.onclose(nil); return false
+    | .err => ⟨[.val v, .closed true], false, w.cb.tail, cancelSends .busy⟩     -- send: w.onclose(err); return false
+    | .panic => ⟨[.val v, .closed true], false, w.cb.tail, cancelSends .busy⟩   -- send: recover: ok = false; w.onclose(wrapped)
+    | .reenter =>                                             -- cancel (state busy): marks it cancelled and returns
+      ⟨[.val v, .closed false], false, w.cb.tail, cancelSends .busy || cancelSends .cancelled⟩
+                                                              -- CAS fails; w.onclose(nil) (state cancelled); return false
 
 structure RangeRes (S : Type) where
   ws : List (Watcher S)
@@ -134,7 +153,12 @@ def rangeUpdate {S : Type} (g : S) : List (Watcher S) → RangeRes S
       let rr := rangeUpdate g r
       ⟨if u.ok then w' :: rr.ws else rr.ws, u.evs.map (Out.ev w.id) ++ rr.outs, rr.blocked⟩
 
-/-- `closeAllWatchers`: `for _, w := range watchers { w.close() }` -/
+/-- the state of the watcher at each of the three places where the loop calls `onclose`:
+`send` (onclose(err), state busy), `update` after the failed CAS (onclose(nil), state cancelled) and
+`close()` = `state = busy; w.onclose(nil)` (cancel, hang-up, stop) -/
+def closeSiteStates : List WState := [.busy, .cancelled, .busy]
+
+/-- `closeAllWatchers`: `for _, w := range watchers { w.close() }` (each `close()` with the watcher busy) -/
 def closeAll {S : Type} (ws : List (Watcher S)) : List (Out S) := ws.map (fun w => Out.ev w.id (.closed false))
 
 /-- one iteration of `for { select { ... } }` (repaired loop).  A loop that is not at the `select`
@@ -254,6 +278,66 @@ def step {S : Type} (s : State S) (m : Msg S) : State S :=
 def run {S : Type} (g0 : S) (h : List (Msg S)) : State S := h.foldl step (Impl.init g0)
 
 end Prev
+
+/-! ## Mut: a variant that leaves the busy state before calling onclose (kept as a machine-checked
+explanation of why `close`/`update` must keep the watcher busy while onclose runs) -/
+namespace Mut
+open Impl (Status Out State UpdRes RangeRes WState cancelSends mapGet mapDel mapPut closeAll)
+
+/-- `(*watcher).update` of a seeded variant: `if SwapInt32(state, idle) != busy { w.onclose(nil); return false }` —
+the watcher is idle again while the `onclose(nil)` of a watcher cancelled during its callback runs -/
+def wUpdate {S : Type} (w : Watcher S) (g : S) : UpdRes S :=
+  match w.expr g with
+  | none => ⟨[.closed true], false, w.cb, cancelSends .busy⟩
+  | some v =>
+    match w.cb.headD .ok with
+    | .ok => ⟨[.val v], true, w.cb.tail, false⟩
+    | .err => ⟨[.val v, .closed true], false, w.cb.tail, cancelSends .busy⟩
+    | .panic => ⟨[.val v, .closed true], false, w.cb.tail, cancelSends .busy⟩
+    | .reenter => ⟨[.val v, .closed false], false, w.cb.tail, cancelSends .busy || cancelSends .idle⟩
+
+def rangeUpdate {S : Type} (g : S) : List (Watcher S) → RangeRes S
+  | [] => ⟨[], [], false⟩
+  | w :: r =>
+    let u := wUpdate w g
+    let w' : Watcher S := ⟨w.id, w.expr, u.cb⟩
+    if u.blocked then ⟨w' :: r, u.evs.map (Out.ev w.id), true⟩
+    else
+      let rr := rangeUpdate g r
+      ⟨if u.ok then w' :: rr.ws else rr.ws, u.evs.map (Out.ev w.id) ++ rr.outs, rr.blocked⟩
+
+def step {S : Type} (s : State S) (m : Msg S) : State S :=
+  match s.status with
+  | .running =>
+    match m with
+    | .add e c =>
+      let id := s.lastID + 1
+      let u := wUpdate ⟨id, e, c⟩ s.global
+      let ws := mapPut s.watchers ⟨id, e, u.cb⟩
+      { s with lastID := id,
+               trace := s.trace ++ u.evs.map (Out.ev id),
+               watchers := if u.blocked || u.ok then ws else mapDel ws id,
+               status := if u.blocked then .wedged else .running }
+    | .remove id =>
+      match mapGet s.watchers id with
+      | some _ => { s with trace := s.trace ++ [Out.ev id (.closed false)], watchers := mapDel s.watchers id }
+      | none => s
+    | .update e ord =>
+      match e s.global with
+      | none => { s with trace := s.trace ++ [Out.reply false] }
+      | some v =>
+        let rr := rangeUpdate v (permBy ord s.watchers)
+        { s with global := v,
+                 trace := s.trace ++ Out.reply true :: rr.outs,
+                 watchers := rr.ws,
+                 status := if rr.blocked then .wedged else .running }
+    | .hangup ord =>
+      { s with trace := s.trace ++ closeAll (permBy ord s.watchers), watchers := [] }
+  | _ => s
+
+def run {S : Type} (g0 : S) (h : List (Msg S)) : State S := h.foldl step (Impl.init g0)
+
+end Mut
 
 /-! ## Old: the loop before any repair (kept so that the findings are machine-checked) -/
 namespace Old
